@@ -84,6 +84,8 @@ def run(chk, repo, tier):
     chk.rule("C07.R4", "twist is an injective ring-embedding-times-units map carrying E'(F_p²) into E(F_p¹²)", 4 * 4)
     chk.rule("C07.R5", "moduli, orders, coefficients, tower moduli, generators are the standard alt_bn128 / BLS12-381 ones and "
                        "agree between the reference and the optimized module", 30)
+    chk.rule("C07.R7", "field division used for the slopes: prime_field_inv (Euclid invariant) and the quadratic-extension inv() "
+                       "(a·inv(a) = 1 on every path) — C08's obligations re-stated", 4 + 5)
     chk.rule("C07.R6", "associativity of the affine chord-and-tangent table the code is compared with, as formal identities modulo the "
                        "curve equations: codimension-one strata (quick) and the generic stratum / sum-equals-third-point (thorough)", 6)
     chk.not_decided += ["associativity on the remaining lower-dimensional strata (two coincidences at once, points of order 2 or 3, "
@@ -111,6 +113,16 @@ def run(chk, repo, tier):
         for key, ok, det in res:
             chk.ob("C07.R4", f.qualname, key, ok, det, f.where)
     constants(chk, repo, w, tier)
+    # the slope of every chord/tangent is a field division: the inverse routines the curve code relies on (C08) re-stated
+    from ..fieldcheck import FieldSubject, check_inv_paths
+    from ..euclid import check_euclid
+    for q in ("py_ecc.fields.bn128_FQ2", "py_ecc.fields.bls12_381_FQ2", "py_ecc.fields.optimized_bn128_FQ2",
+              "py_ecc.fields.optimized_bls12_381_FQ2"):
+        for key, ok, det, where in check_inv_paths(FieldSubject(w, repo.cls(q))):
+            chk.ob("C07.R7", q, key, ok, det, where)
+    finv = repo.func("py_ecc.utils.prime_field_inv")
+    for key, ok, det in check_euclid(w, finv):
+        chk.ob("C07.R7", finv.qualname, key, ok, det, finv.where)
     from ..assoc import obligations as assoc_obligations
     for name, ok, det in assoc_obligations(tier):
         chk.ob("C07.R6", "vstatic.curvelaw (affine table)", name, ok, det, "vstatic/curvelaw.py")
